@@ -21,8 +21,7 @@ ASSUMPTIONS = [
     'partition_iterator: partition_size >= 1; group_into_tensor_product_basis_sets: coefficients are 0 or dyadic with |c| >= 1e-8 (exact regime)',
 ]
 OPEN_STATEMENTS = [
-    'pws_covers (pair_within_simultaneously and the binned / symmetric variants: every admissible 4 labels have a co-scheduled split; every yield is a partial matching): open as a theorem; checked by the Spec oracle and an independent brute force for every label count <= 26 / 48 and on random bin sizes.',
-    'partition_iterator_spec for k >= 3 (every k-subset perfectly split) and pauli_string_iterator_spec: open as theorems (k = 2 is binary_partition_spec, proved); checked by the Spec oracle (n <= 11/16, k <= 4/5; Pauli words n <= 7/9, k <= 3).',
+    'pws_covers (pair_within_simultaneously and the binned / symmetric variants: every admissible 4 labels have a co-scheduled split; every yield is a partial matching): open as a theorem (multi-level case analysis over the partition tree with wrap-around generators); checked by the Spec oracle and an independent brute force for every label count <= 26 / 48 and on random bin sizes.',
     '_asynchronous_iter Latin-square coverage: open as a theorem; Spec oracle asyncCovers on random iterator lists.',
     'tpb_groups_spec is proved under the hypothesis PermsCover (every shuffle lists each current basis at least once — true for genuine permutations); that numpy.random.RandomState.shuffle produces a permutation is part of the trusted base (the recorded shuffles are checked to reproduce the unpatched call).',
 ]
